@@ -363,17 +363,13 @@ def run(ctx) -> None:
                 B = [n for n in cfg.nodes if any(b in call_names(db, c, f) or (isinstance(c.func, ast.Name) and c.func.id == b) for c in cfg.calls_at(n))]
                 if A and B:
                     found = True
-                    for bn in B:
-                        if any(reaches(bn, an) for an in A if an is not bn) and not any(n.kind == "for" for n in reachable(bn) if False):
-                            # b may precede a only through a loop back edge; require: every path entry->b passes a, unless b sits in another branch
-                            pass
+                    # within one node's region (loop headers cut the back edges) b must never be able to run before a
+                    loops_ = [n for n in cfg.nodes if n.kind == "for"]
                     dom = dominators(cfg.entry)
                     for bn in B:
-                        if bn in dom and not (dom[bn] & set(A)):
-                            # allowed only if no path a ... b exists at all in reverse: b before a is the violation
-                            if any(reaches(bn, an, avoid=[n for n in cfg.nodes if n.kind == "for"]) for an in A):
-                                okp = False
-                                where = f"{f.module.rel}:{bn.lineno}"
+                        if bn in dom and not (dom[bn] & set(A)) and any(reaches(bn, an, avoid=loops_) for an in A):
+                            okp = False
+                            where = f"{f.module.rel}:{bn.lineno}"
             if not found:
                 # a and b live in different functions of the sibling (async: execute_one vs superstep body): order is by construction
                 rep.add("C02.R5", f"{ss.qname}:order:{a}<{b}", True, where, "steps live in caller/callee, ordered by construction")
